@@ -131,7 +131,11 @@ func Check17(c Case17, r *core.Rec) {
 			r.Vacuous()
 			return
 		}
-		x = c.Web.Render(c.Spelling, 16, true, true)
+		hostDepth := 1 // one level of escapes in a domain host is decoded by every parser; nested levels only by the lax, decoding profiles
+		if c.Profile.experimental() {
+			hostDepth = 16
+		}
+		x = c.Web.RenderH(c.Spelling, 16, hostDepth, true, true)
 	}
 	r.Class("profile:" + c.Profile.Name)
 	u1, err := p.Parse(x)
